@@ -87,7 +87,7 @@ def gen_random(ctx, n):
     rnd = random.Random(ctx.seed * 7919 + 13)
     scen = []
     for i in range(n):
-        style = ["free", "bytewise", "kchunk", "prefix", "sched", "fail", "partial", "shutdown", "sched", "jumbo"][i % 10]
+        style = ["free", "bytewise", "kchunk", "prefix", "sched", "fail", "partial", "shutdown", "sched", "jumbo", "eof"][i % 11]
         s = dict(id="rnd-%d-%s" % (i + 1, style), k="in", seed=ctx.seed * 1000 + i, sched=[], style=style)
         nf = rnd.choice([60, 120, 160])
         s["frames"] = rand_frames(rnd, nf)
@@ -111,6 +111,13 @@ def gen_random(ctx, n):
             s["frames"] = [["error", rnd.choice([2049, 2052, 3000, 4096, 6000])] if j % 2 == 0 else [rnd.choice(["echo", "barrier", "hello"]), 8] for j in range(140)]
             s["frames"] = [f if f[0] != "hello" else ["hello", 16] for f in s["frames"]]
             s["chunks"] = [rnd.randint(1, 3000) for _ in range(rnd.randint(0, 300))]
+        elif style == "eof":
+            # the peer closes its end exactly on a frame boundary (after the last complete frame, or before any byte): a failure like
+            # any other, published once on Error
+            s["frames"] = rand_frames(rnd, rnd.choice([0, 1, 5, 40]), big=False)
+            s["chunks"] = [rnd.randint(1, 200) for _ in range(100)]
+            s["failAtEnd"] = True
+            s["failEOF"] = True
         elif style == "free":
             s["chunks"] = [rnd.randint(1, 1500) for _ in range(rnd.randint(0, 300))]
             s["maxprocs"] = rnd.choice([0, 1, 2, 4])
@@ -175,7 +182,7 @@ def run(ctx):
         nsim += n
         recs += run_rig(ctx, p, race=False)
     # (b) code -> specification: free-running / randomly scheduled executions under the race detector
-    p, nrnd = gen_random(ctx, 20 if q else 300)
+    p, nrnd = gen_random(ctx, 22 if q else 330)
     recs += run_rig(ctx, p, race=True)
     ctx.extra.update(simulated_schedules=nsim, random_executions=nrnd, distinct_nontrivial=nsim + nrnd)
     viol, known = pipeline.settle(ctx, SUB, JUDGE, "", recs, sig=lambda r: r.get("pred", "?"))
